@@ -9,8 +9,8 @@ from vf import core, e2, e3, reent, spaces
 
 PID = "C14"
 LEVEL = "model_checking"
-RULE = ("E2: breadth-first search over call histories on the real code (5 classes x 4 model configs; full operation "
-        "alphabet of 257 calls under the default and limit_sigma models, reduced alphabet of 127 under tau=0 and tau=2beta [thorough: full "
+RULE = ("E2: breadth-first search over call histories on the real code (5 classes x 3 model configs [thorough: 4]; full operation "
+        "alphabet of 257 calls under the default and limit_sigma models, reduced alphabet of 128 under tau=0 [thorough: full alphabet under all four incl. tau=2beta; "
         "everywhere]; depth 2, thorough adds depth 3 on the reduced alphabet); on every transition I1 (model "
         "snapshot unchanged) and I2 (bit-identical to the same call on a fresh model and fresh ratings with the same "
         "values, other ids and names; the same again with every rating carrying one id), I8 (a valid call leaves its teams / ranks / scores containers unchanged, so a "
@@ -46,7 +46,8 @@ def e3_plan(ctx):
                 plan.append((h, kind, "line", 1, 1))
             if kind in spaces.TM:  # b <= 2 with both preemptions inside the shared helper module (v, w, vt, wt, phi: only TM goes there)
                 plan.append(("H8", kind, "line-helper", 2, 16))
-            plan.append(("H1", kind, "opcode", 1, 3))
+            if kind in ("PL", "TMP"):  # opcode granularity (sub-line interleavings) on two classes; all five in the thorough tier
+                plan.append(("H1", kind, "opcode", 1, 4))
             plan.append(("H5", kind, "line", 1, 6))
     return plan
 
@@ -74,6 +75,9 @@ def run_e3_unit(unit, ctx):
     acc.mx("e3_distinct_outcomes_max", len(res["outcomes"]), f"{h}:{kind}:{gran}")
     if res["capped"]:
         acc.add("e3_capped")
+    acc.add("e3_unstable_executions", res["unstable"])
+    if not res["baseline_stable"]:
+        acc.add("e3_units_with_unstable_baseline")
     for v in res["violations"]:
         acc.violation(PID, f"E3:{h}:{kind}", "; ".join(v["msgs"])[:900],
                       {"engine": "E3", "harness": h, "kind": kind, "gran": gran, "dev": v["dev"], "first": v["first"]})
@@ -171,10 +175,13 @@ def replay(case):
     if eng == "E3":
         mk = e3.harness(case["harness"], case["kind"])
         snap0, solo_res = e3.solo(mk)
-        e3.baseline(mk, case["gran"], len(solo_res))
+        e3.baseline(mk, case["gran"].replace("-helper", ""), len(solo_res))
         dev = {int(k): v for k, v in case["dev"].items()}
-        ex = e3.run_once(mk, dev, case["first"], case["gran"])
-        return e3.check(ex, snap0, solo_res)
+        ex = e3.run_once(mk, dev, case["first"], case["gran"].replace("-helper", ""))
+        try:
+            return e3.check(ex, snap0, solo_res)
+        except e3.Unstable:
+            return []
     if eng == "REENT":
         return reent.replay(case["kind"], case["limit"], case["outer"], case["inner"], case["k"])
     if eng == "SEED":
@@ -197,7 +204,8 @@ def main(ctx, t0):
     core.deterministic_ids(0)
     procs = seed_runs_start(ctx)
     # ---- E2
-    searches = [(k, c, "full" if c in ("default", "limit") or ctx.thorough else "reduced") for k in spaces.KINDS for c in e2.MODEL_CFGS]
+    searches = [(k, c, "full" if c in ("default", "limit") or ctx.thorough else "reduced") for k in spaces.KINDS for c in e2.MODEL_CFGS
+                if ctx.thorough or c != "tau2b"]
     stats, acc = e2.explore(searches, 2, ctx, invs=INVS)
     stats3 = {}
     if ctx.thorough:
@@ -249,6 +257,10 @@ def main(ctx, t0):
         "e3_schedules_explored": keep.count.get("e3_executions", 0),
         "e3_schedules_per_preemption_bound": {k[-1]: v for k, v in keep.count.items() if k.startswith("e3_executions_bound")},
         "e3_distinct_outcome_vectors_max": keep.maxi.get("e3_distinct_outcomes_max", (0, None))[0],
+        "e3_unstable": {"executions_skipped": keep.count.get("e3_unstable_executions", 0),
+                        "units_with_unstable_baseline": keep.count.get("e3_units_with_unstable_baseline", 0),
+                        "meaning": "schedules whose recorded point sequence could not be replayed because the library's control flow "
+                                   "depended on earlier executions in the process; 0 means every schedule was executed exactly as enumerated"},
         "census": {"shared_writes": shared_writes,
                    "conclusion": ("no step of any harness body writes the shared domain, so all interleavings (any number of "
                                   "preemptions) are Mazurkiewicz-equivalent to a serial order" if shared_writes == 0 else
